@@ -4,9 +4,10 @@
     Y = the closures of interp/op.go (regenerated into gen/OpTable_gen.v by `vh tr-ops` on every
         run) with the machine semantics of Num/OpDsl.v;  G = Num/GoInt.v.
     Scope of the proofs: the integer kinds (int8..int64, int, uint8..uint64, uint, uintptr),
-    booleans and strings, for ALL operand values.  Floating point and complex rows are tied
-    structurally ([C02_table_tie]) and decided by the complete enumeration of harness/c02.go
-    against compiled Go (validated, not proved). *)
+    booleans and strings, for ALL operand values; float32 / float64 rows for ALL operand bit
+    patterns (last section, Flocq).  Complex rows are tied structurally ([C02_table_tie]) and
+    decided by the complete enumeration of harness/c02.go against compiled Go (validated, not
+    proved). *)
 From Coq Require Import ZArith List String Bool.
 From Coq Require Import QArith.
 From Verif Require Import Num.OpDsl Num.GoInt Num.Model Num.Proofs gen.OpTable_gen.
@@ -350,3 +351,122 @@ Print Assumptions C02_negzero_arg_refuted.
 Theorem C02_statement_refuted : ~ C02_statement.
 Proof. exact statement_refuted. Qed.
 Print Assumptions C02_statement_refuted.
+
+(* ================================================================== floating point (Flocq) *)
+
+(** Values are bit patterns; NaN payloads are canonicalised.  G_float ([g_frow], [g_fbin], ...) is the
+    IEEE-754 operation of the operand kind's own format (binary32 / binary64, round to nearest
+    even, Flocq [BinarySingleNaN]); Y_float ([fdenote]) interprets the regenerated table row:
+    operands extracted as float64, expression evaluated in float64, SetFloat / Convert round to
+    the slot's format.  Num/FloatModel.v, FloatProofs.v, FloatDR.v. *)
+From Flocq Require Import IEEE754.BinarySingleNaN.
+From Verif Require Import Num.FloatBase Num.FloatModel Num.FloatCases Num.FloatProofs.
+From Verif Require Num.FloatDR.
+
+(** every float row of the table regenerated from the source has the normal form of the operator
+    its generator function stands for (operator, float extractors, float / bool setter) *)
+Theorem C02_float_rows_tie :
+  bad_float_rows = [] /\ forallb frow_checked op_table = true /\ (70 <= float_row_count)%nat.
+Proof. exact (conj eq_refl (conj frows_ok float_rows_present)). Qed.
+Print Assumptions C02_float_rows_tie.
+
+(** float64: every float row (+ - * /, op=, constant folds, ++ --, unary -, the six comparisons
+    in value and branch form), ALL operand bit patterns: the closure stores Go's binary64 result
+    and takes the successor Go's boolean selects. *)
+Theorem C02_float64_full :
+  forall r, In r op_table -> is_float_row r = true ->
+  exists s, fn_sem (r_fn r) = Some s /\
+    forall a b, fdenote r (fdest_kind r KFloat64) KFloat64 a b = fexpect r (g_frow s KFloat64 a b).
+Proof. exact table_float64. Qed.
+Print Assumptions C02_float64_full.
+
+(** float32: the same statement at binary32.  The closure rounds twice (float64 result, then
+    SetFloat to float32); Go rounds once.  Equal for ALL operand bit patterns. *)
+Definition C02_float32_statement : Prop :=
+  forall r, In r op_table -> is_float_row r = true ->
+  exists s, fn_sem (r_fn r) = Some s /\
+    forall a b, fdenote r (fdest_kind r KFloat32) KFloat32 a b = fexpect r (g_frow s KFloat32 a b).
+
+Theorem C02_float32_full : C02_float32_statement.
+Proof. exact table_float32_full. Qed.
+Print Assumptions C02_float32_full.
+
+(** the facts about binary32 inside binary64 it rests on (Flocq Binary-level operations, all values
+    including signed zeros, subnormals, infinities, NaN, overflow of the second rounding) *)
+Theorem C02_double_rounding_innocuous :
+  (forall x y : f32, down (plus64 (up x) (up y)) = plus32 x y)
+  /\ (forall x y : f32, down (minus64 (up x) (up y)) = minus32 x y)
+  /\ (forall x y : f32, down (mult64 (up x) (up y)) = mult32 x y)
+  /\ (forall x y : f32, down (div64 (up x) (up y)) = div32 x y)
+  /\ (forall x y : f32, Bcompare (up x) (up y) = Bcompare x y)
+  /\ (forall x : f32, down (Bopp (up x)) = Bopp x)
+  /\ (forall x : f32, down (up x) = x).
+Proof.
+  exact (conj FloatDR.dr_plus (conj FloatDR.dr_minus (conj FloatDR.dr_mult (conj FloatDR.dr_div
+        (conj FloatDR.cmp_up (conj FloatDR.opp_up FloatDR.down_up)))))).
+Qed.
+Print Assumptions C02_double_rounding_innocuous.
+
+(** the conditional form: the float32 rows are correct given those facts (no real numbers) *)
+Theorem C02_float32_from_double_rounding : dr_facts -> C02_float32_statement.
+Proof. exact table_float32. Qed.
+Print Assumptions C02_float32_from_double_rounding.
+
+(** source forms: r = x op y in every operand form, both float kinds *)
+Theorem C02_float_forms_full :
+  forall o k f a b, is_float k = true -> is_arith o = true -> In f forms4 ->
+  frun (select_bin o k f) k k a b = of_fres (g_fbin o k a b).
+Proof. exact sel_float_arith. Qed.
+Print Assumptions C02_float_forms_full.
+
+(** the weaker statement that needs no double-rounding argument, with both sides of its side
+    condition inhabited *)
+Theorem C02_float32_exact_partial :
+  forall o a b, is_arith o = true ->
+  forall z, farith o (up (dec32 a)) (up (dec32 b)) = Some z -> exact32 z = true ->
+  frun (select_bin o KFloat32 FVar) KFloat32 KFloat32 a b = of_fres (g_fbin o KFloat32 a b).
+Proof. exact float32_exact_partial. Qed.
+Print Assumptions C02_float32_exact_partial.
+
+Theorem C02_float32_exact_inhabited :
+  exact32 (plus64 (up (dec32 1065353216)) (up (dec32 1073741824))) = true
+  /\ exact32 (plus64 (up (dec32 1065353216)) (up (dec32 864026624))) = false.
+Proof. exact float32_exact_inhabited. Qed.
+Print Assumptions C02_float32_exact_inhabited.
+
+Theorem C02_float32_midpoint_example :
+  frun (select_bin Add KFloat32 FVar) KFloat32 KFloat32 1065353216 864026624 = FO (FBits 1065353216)
+  /\ g_fbin Add KFloat32 1065353216 864026624 = Ok (FBits 1065353216).
+Proof. exact float32_midpoint_example. Qed.
+Print Assumptions C02_float32_midpoint_example.
+
+(** conversions (run.go convert = reflect.Value.Convert) *)
+Theorem C02_conv_float_float_full :
+  forall kf kt a, is_float kf = true -> is_float kt = true -> y_fconv kf kt a = g_fconv kf kt a.
+Proof. exact conv_ff_full. Qed.
+Print Assumptions C02_conv_float_float_full.
+
+Theorem C02_conv_float_int_partial :
+  forall kf kt a z, g_f2int kf kt a = Ok z -> y_f2int kf kt a = Ok z.
+Proof. exact f2int_full. Qed.
+Print Assumptions C02_conv_float_int_partial.
+
+Theorem C02_int_to_float64_full : forall z, y_int2f KFloat64 z = g_int2f KFloat64 z.
+Proof. exact int2f_64. Qed.
+Print Assumptions C02_int_to_float64_full.
+
+(** float32(x), x an integer variable: reflect converts through float64, Go rounds once *)
+Definition C02_int_to_float32_statement : Prop := forall z, y_int2f KFloat32 z = g_int2f KFloat32 z.
+
+Theorem C02_int_to_float32_refuted :
+  let z := 1152921573326323713 in
+  in_range KInt64 z = true
+  /\ y_int2f KFloat32 z = Ok (FBits 1568669696)
+  /\ g_int2f KFloat32 z = Ok (FBits 1568669697).
+Proof. exact int2f_32_refuted. Qed.
+Print Assumptions C02_int_to_float32_refuted.
+
+Theorem C02_int_to_float32_inhabited :
+  y_int2f KFloat32 16777217 = Ok (FBits 1266679808) /\ g_int2f KFloat32 16777217 = Ok (FBits 1266679808).
+Proof. exact int2f_32_small_inhabited. Qed.
+Print Assumptions C02_int_to_float32_inhabited.
